@@ -33,7 +33,11 @@ def run(ctx):
     gl_names = {t.id for a in walk_no_nested(ac.node) if isinstance(a, ast.Assign) and isinstance(a.value, ast.Call) and call_name(a.value) == "globals"
                 and not a.value.args for t in a.targets if isinstance(t, ast.Name)}
 
+    ns_kind, ns_name = R.command_namespace()
+
     def is_globals(e):
+        if ns_kind == "registry":
+            return isinstance(e, ast.Name) and e.id == ns_name  # the explicit registry the lookup reads
         return (isinstance(e, ast.Call) and call_name(e) == "globals") or (isinstance(e, ast.Name) and e.id in gl_names)
     stores = [st for st in walk_no_nested(ac.node) if isinstance(st, ast.Assign) and any(
         isinstance(t, ast.Subscript) and is_globals(t.value) for t in st.targets)]
@@ -56,6 +60,8 @@ def run(ctx):
         else:
             ctx.notice("Y1", "add_commands registers names without the 'Command' suffix test (such names can never be looked up)")
     reads = [c for c in walk_no_nested(lk.node) if isinstance(c, ast.Call) and call_name(c) == "globals"]
+    if ns_kind == "registry":
+        reads = [c for c in walk_no_nested(lk.node) if isinstance(c, ast.Name) and c.id == ns_name]
     if reads and lk.module is ac.module:
         ctx.holds("Y1", "lookup reads globals() of the same module (%s)" % lk.module.relpath)
     else:
